@@ -35,6 +35,19 @@ PROPS["C18"] = {
     "assumptions": ["tag keys are distinct within an element for the order-independence claim (OSM data model)"],
 }
 
+PROPS["C13"] = {
+    "props": ["OsmVerif.Props.C13"],
+    "gens": [],
+    "required_theorems": ["previous_is_greatest_below", "previous_exists_iff", "actions_order", "actions_length", "create_visible",
+                          "visible_flags_and_old", "missing_history_error", "missing_previous_error", "ignore_missing_creates"],
+    "technique": "Lean 4 theorems (scan invariant by induction over arbitrary histories) about a hand-written executable model of annotate.Change, tied to the code by a differential line protocol",
+    "level_text": "Machine-checked proof over all changes, all histories (unsorted, gapped, duplicates, later versions, absent, failing) and both option values that the model of annotate.Change emits exactly one action per element in create/modify/delete and node/way/relation order, marks creates visible, pairs every modified/deleted element with the history version of greatest version number below its own (found iff one exists), sets visible for modify and not for delete, and reports missing history / missing earlier version as NoVisibleChildError or as a create under IgnoreMissingChildren. The model is hand-written; every run executes it and annotate.Change on the same ~20k generated changes and compares action by action including which history entry was chosen.",
+    "level_note": "Trusted: Lean kernel; the correspondence harness; versions are non-negative (the code's scan starts at max=-1, so negative versions are never selectable - stated in the theorems).",
+    "design_ref": "DESIGN.md §5 C13",
+    "trusted_base": ["model Model/Change.lean is hand-written; tie = differential stream (./check C13)"],
+    "assumptions": ["history versions >= 0 for the 'found iff exists' direction"],
+}
+
 NOT_APPLICABLE = {pid: "check not built yet in this session (planned, see DESIGN.md §9); no claim is made" for pid in
                   ["C%02d" % i for i in range(1, 21)] if pid not in PROPS}
 
